@@ -190,7 +190,14 @@ func genClass(r *rng) *gType {
 		newF := func() *gField {
 			f := &gField{name: fmt.Sprintf("F%d", idx), length: -1}
 			idx++
-			switch r.intn(9) {
+			switch r.intn(11) {
+			case 9: // pointer to a narrow unsigned integer
+				f.typ = reflect.PtrTo(uintTyps[r.intn(3)])
+				f.base = []int{0, 0, 16}[r.intn(3)]
+			case 10: // pointer to a narrow signed integer
+				f.typ = reflect.PtrTo(intTypes[r.intn(3)])
+				f.base = []int{0, 0, 16}[r.intn(3)]
+				f.enc = "none"
 			case 0, 1:
 				f.typ = tString
 			case 2:
